@@ -510,7 +510,7 @@ func families(tier string) []seq.Family {
 	return []seq.Family{
 		seqFamily("frame-sequences<=3/max1,4,8", alphabetA, 0, 3, []int{1, 4, 8}, 16, true),
 		seqFamily("frame-sequences=4/max4", alphabetA, 4, 4, []int{4}, 12, false),
-		seqFamily("runs-of-5..8-small-frames/max1,4,8", func(int) []sym { return alphabetB() }, 5, 8, []int{1, 4, 8}, 0, true),
+		seqFamily("runs-of-5..7-small-frames/max1,4,8", func(int) []sym { return alphabetB() }, 5, 7, []int{1, 4, 8}, 0, true),
 		longFamily([]int{4096 - 32, 4096 - 31, 4096 - 30, 4096, 70000, 4 << 20}),
 		hostileFamily([]int{1, 4, 1000, 65536}),
 		zeroFamily(),
@@ -518,6 +518,6 @@ func families(tier string) []seq.Family {
 }
 
 func init() {
-	seq.Register(&seq.Check{ID: "C09", Families: families, Budget: map[string]int{"quick": 100, "thorough": 1200},
-		Notes: "C09: frame sequences over a 16-frame alphabet (ids below/at/above the watermark, kind change, control bits, oversized, padded integers, malformed, truncated) and runs of 5-8 small frames (stream longer than max+overhead while every packet fits); for each byte stream every composition into non-empty reads (short streams) or all single/double cuts and uniform chunk sizes, the final error delivered after or with the last data, zero-length reads interleaved; oracle: identical (packets, error class) for all splits, equal to the reference reassembly, reader buffer capacity (reflection) <= 4*max+32KiB."})
+	seq.Register(&seq.Check{ID: "C09", Families: families, Budget: map[string]int{"quick": 100, "thorough": 1500},
+		Notes: "C09: frame sequences over a 16-frame alphabet (ids below/at/above the watermark, kind change, control bits, oversized, padded integers, malformed, truncated) and runs of 5-7 (quick: 6) small frames (stream longer than max+overhead while every packet fits); for each byte stream every composition into non-empty reads (short streams) or all single/double cuts and uniform chunk sizes, the final error delivered after or with the last data, zero-length reads interleaved; oracle: identical (packets, error class) for all splits, equal to the reference reassembly, reader buffer capacity (reflection) <= 4*max+32KiB."})
 }
